@@ -128,7 +128,8 @@ Lemma obj_strategy_ok : forall d sv dict ca,
 Proof.
   intros d sv dict ca Hwf. set (x := VObj d sv dict ca) in *.
   unfold wf_obj in Hwf. cbn [x] in Hwf. fold x in Hwf.
-  unfold make_fields_iterator, hints_of, spec_obj_pairs. cbn [fix_no_sig_hints repaired x]. fold x.
+  apply andb_prop in Hwf. destruct Hwf as [Hdict Hwf].
+  unfold make_fields_iterator, hints_of, spec_obj_pairs. cbn [fix_no_sig_hints fix_vars_nodict repaired x andb]. fold x.
   destruct (c_flavour d) eqn:Hfl.
   - (* dataclass *)
     apply andb_prop in Hwf. destruct Hwf as [Hwf Hemp]. apply andb_prop in Hwf. destruct Hwf as [Hdc Hattr].
@@ -136,12 +137,10 @@ Proof.
     + cbn [is_nil negb orb] in Hemp. apply andb_prop in Hemp. destruct Hemp as [Hs Hv].
       apply is_nil_true in Hs. apply is_nil_true in Hv.
       destruct (c_slots d) as [sl|] eqn:Hsl.
-      * rewrite Hs. cbn [flat_map]. destruct dict as [dd|]; cbn [apply_strategy x dict_items] in *.
-        -- rewrite Hv. reflexivity.
-        -- reflexivity.
-      * cbn [flat_map]. destruct dict as [dd|]; cbn [apply_strategy x dict_items] in *.
-        -- rewrite Hv. reflexivity.
-        -- reflexivity.
+      * rewrite Hs. cbn [flat_map]. destruct dict as [dd|]; cbn [apply_strategy x dict_items] in *;
+          [rewrite Hv; reflexivity | try discriminate Hdict; reflexivity].
+      * cbn [flat_map]. destruct dict as [dd|]; cbn [apply_strategy x dict_items] in *;
+          [rewrite Hv; reflexivity | try discriminate Hdict; reflexivity].
     + cbn [apply_strategy]. rewrite (fields_items_ok x (a :: r) Hattr). reflexivity.
   - (* annotated *)
     apply andb_prop in Hwf. destruct Hwf as [Hwf Hemp]. apply andb_prop in Hwf. destruct Hwf as [Hdc Hattr].
@@ -149,12 +148,10 @@ Proof.
     + cbn [is_nil negb orb] in Hemp. apply andb_prop in Hemp. destruct Hemp as [Hs Hv].
       apply is_nil_true in Hs. apply is_nil_true in Hv.
       destruct (c_slots d) as [sl|] eqn:Hsl.
-      * rewrite Hs. cbn [flat_map]. destruct dict as [dd|]; cbn [apply_strategy x dict_items] in *.
-        -- rewrite Hv. reflexivity.
-        -- reflexivity.
-      * cbn [flat_map]. destruct dict as [dd|]; cbn [apply_strategy x dict_items] in *.
-        -- rewrite Hv. reflexivity.
-        -- reflexivity.
+      * rewrite Hs. cbn [flat_map]. destruct dict as [dd|]; cbn [apply_strategy x dict_items] in *;
+          [rewrite Hv; reflexivity | try discriminate Hdict; reflexivity].
+      * cbn [flat_map]. destruct dict as [dd|]; cbn [apply_strategy x dict_items] in *;
+          [rewrite Hv; reflexivity | try discriminate Hdict; reflexivity].
     + cbn [apply_strategy]. rewrite (fields_items_ok x (a :: r) Hattr). reflexivity.
   - (* slots only *)
     apply andb_prop in Hwf. destruct Hwf as [Hwf Hemp]. apply andb_prop in Hwf. destruct Hwf as [Hwf Hattr].
@@ -163,9 +160,8 @@ Proof.
     destruct (c_slots d) as [sl|] eqn:Hsl; [|discriminate].
     destruct (public sl) as [|a r] eqn:Hpub.
     + cbn [is_nil negb orb] in Hemp. apply is_nil_true in Hemp.
-      cbn [flat_map]. destruct dict as [dd|]; cbn [apply_strategy x dict_items] in *.
-      * rewrite Hemp. reflexivity.
-      * reflexivity.
+      cbn [flat_map]. destruct dict as [dd|]; cbn [apply_strategy x dict_items] in *;
+        [rewrite Hemp; reflexivity | reflexivity].
     + cbn [apply_strategy]. rewrite (fields_items_ok x (a :: r) Hattr). reflexivity.
   - (* vars only *)
     apply andb_prop in Hwf. destruct Hwf as [Hwf Hs]. apply andb_prop in Hwf. destruct Hwf as [Hdc Hh].
@@ -173,7 +169,7 @@ Proof.
     apply is_nil_true in Hs.
     destruct (c_slots d) as [sl|] eqn:Hsl.
     + rewrite Hs. destruct dict as [dd|]; reflexivity.
-    + destruct dict as [dd|]; reflexivity.
+    + destruct dict as [dd|]; [reflexivity | discriminate Hdict].
 Qed.
 
 (* ---------------------------------------------------------------------------------- *)
